@@ -142,6 +142,34 @@ func (e *Enc) encodeTop(fn *ssa.Function, fc *FuncContract, name string) {
 		return
 	}
 	e.addCover("exit-reachable", exit.reach)
+	if len(fc.GhostEffects) > 0 {
+		// definitional ghost update applied at exit: the ghost variables named in the modifies
+		// clause take new values related to their pre-effect values by the ghost-effect clauses
+		preEffect := exit.st.clone()
+		for _, m := range fc.Modifies {
+			id, ok := m.(*SIdent)
+			if !ok {
+				continue
+			}
+			if _, isG := e.cs.Ghosts[id.Name]; !isG {
+				continue
+			}
+			gc := e.ghostComp(id.Name)
+			// the body itself must not have changed the ghost (single definitional update)
+			e.addObl("ghost", "unchanged-before-effect:"+id.Name, exit.reach, eq(e.get(exit.st, gc), e.get(entry, gc)), fn.Pos(), "the body leaves ghost "+id.Name+" to the ghost-effect")
+			e.havocComp(exit.st, gc, "")
+		}
+		for _, c := range fc.GhostEffects {
+			ctx := e.frameCtx(fr, exit.st, preEffect, false)
+			ctx.results = results
+			sv, err := e.evalSpec(c.Expr, ctx)
+			if err != nil {
+				e.errorf("%s: ghost-effect %s: %v", name, c.Label, err)
+				continue
+			}
+			e.assumeIf(exit.reach, sv.T)
+		}
+	}
 	for i, c := range fc.Ensures {
 		lbl := c.Label
 		if lbl == "" {
